@@ -12,6 +12,8 @@ CONSTANTS
  MaxSched = 0
  MaxGen = 1
  CfgIds = {2}
+ UseBlobs = {"z", "o"}
+ InPlace = FALSE
  Modes = {"lazy"}
  Dump = "none"
 INVARIANT InvStateOK
